@@ -61,6 +61,28 @@ def _meta(text, technique):
     return {"level_text": text, "level_note": COMMON_NOTE, "technique": technique, "family": "dict"}
 
 
+COMP_NOTE = ("Trusted base: the plain-definition models in harness/comp_case.cpp, clang 14 ASan/UBSan, rapidcheck. Arguments are kept "
+             "inside the ranges the statement quantifies over (positions < length, values < 2^width, select arguments <= count, "
+             "frequency totals bounded so that no codeword exceeds 32 bits); no absence proof.")
+CP = {"VByte": 0, "LogSequence": 1, "DAC_VLS": 2, "HuffmanTable": 3, "HuTuckerTable": 4, "StatCoder": 5, "BitSequence": 6,
+      "WaveletTree": 7, "RePair": 8}
+
+
+def comp_stages(plan_quick, floors=None, nontrivial_floor=50, thorough_mult=8, extra_thorough=None):
+    def f(tier):
+        mult = thorough_mult if tier == "thorough" else 1
+        st = [{"name": "comp", "binary": "comp_rc", "plan": [(CP[c] * 16 + sub, cases * mult, size) for (c, sub, cases, size) in plan_quick],
+               "label_floors": floors or {}, "nontrivial_floor": nontrivial_floor}]
+        if tier == "thorough" and extra_thorough:
+            st += extra_thorough
+        return st
+    return f
+
+
+def _cmeta(text, technique):
+    return {"level_text": text, "level_note": COMP_NOTE, "technique": technique, "family": "comp"}
+
+
 SPECS = {
     "C01": {
         **_meta('Generated-input search: thousands of (kind, parameter, string-set) cases per run, every member and ID of each case checked in both directions against the reference set on the built and both loaded objects; failures shrink to a replay file. Exploration is the right level: the property is universally quantified over inputs and 13 implementations, no finite model exists.', 'property-based testing (rapidcheck), reference-model round trip + bijection, ASan'),
@@ -146,6 +168,48 @@ SPECS = {
         "rule": "case = (kind, params, S, object state, history); non-trivial = >=1 twin comparison and >=1 repeated query in the "
                 "history; distinct = hash of the decoded case",
         "assumptions": DICT_ASSUME,
+    },
+    "C17": {
+        **_cmeta('Generated values / operation histories / sequence lists against plain models: VByte on boundary and random 32-bit values with exact-size output buffers (thorough: all 2^32 values, exhaustive), LogSequence set/get histories for widths 1..64 with a full-array comparison after every store, DAC_VLS lists incl. all-length-1 and length-1-last shapes via access and the access_next chain; each also through save/load.', 'property-based testing (rapidcheck) with array / sequence reference models; exhaustive enumeration of the VByte domain in the thorough tier'),
+        "stages": comp_stages([("VByte", 0, 1000, 300), ("VByte", 1, 1000, 300), ("LogSequence", 0, 3000, 400), ("LogSequence", 1, 3000, 400),
+                               ("LogSequence", 2, 3000, 400), ("LogSequence", 3, 3000, 400), ("DAC_VLS", 0, 2500, 500), ("DAC_VLS", 1, 2500, 500),
+                               ("DAC_VLS", 2, 2500, 500), ("DAC_VLS", 3, 2500, 500)],
+                              floors={"logseq_straddle": 300, "logseq_w64": 10, "dac_all_len1": 50, "dac_last_len1": 100, "vbyte_ge128": 100},
+                              extra_thorough=[{"name": "vbyte-exhaustive", "binary": "comp_plain", "plan": [(0, 1, 1)], "param_per_worker": "vbyte-exhaustive:%d/64", "workers": 64, "nontrivial_floor": 64, "exhaustive": True}]),
+        "rule": "case = one component with generated content (VByte value list | LogSequence width, length, op history | DAC list of "
+                "symbol sequences, width); non-trivial = VByte value >=128 | a field of width >=2 straddling a 64-bit word was "
+                "written | >=2 sequences with a longest of >=2; distinct = hash of the case bytes",
+        "assumptions": ["DAC_VLS is driven in the callers' format (symbols, -i after the i-th sequence, length = array length - 1)",
+                        "LogSequence positions < length and values < 2^width"],
+    },
+    "C18": {
+        **_cmeta('Generated frequency vectors of seven profiles (uniform, dominant, two-level, geometric, Fibonacci, random) through Huffman and Hu-Tucker: Kraft equality, prefix-freeness and alphabetic order of the obtained tables; StatCoder output against an own bit-level coder and decoder; chunked table decoding through the coded dictionary kinds (HASHHF, HASHUFFDAC, HTFC, HHTFC) on generated sets incl. >16-bit codewords.', 'property-based testing (rapidcheck), code-table validity predicates + own reference coder; dictionary round trip for table decoding'),
+        "stages": (lambda tier: comp_stages([("HuffmanTable", 0, 2500, 600), ("HuffmanTable", 1, 2500, 600), ("HuTuckerTable", 0, 2500, 600), ("HuTuckerTable", 1, 2500, 600),
+                               ("StatCoder", 0, 2000, 600), ("StatCoder", 1, 2000, 600)],
+                              floors={"freq:fibonacci": 100, "freq:one_dominant": 100, "code_gt16": 100, "coded_ends_on_byte": 50})(tier)
+                   + [{"name": "dict", "binary": "dict_rc", "plan": dict_plan([2, 3, 8, 10], 30 * (12 if tier == "thorough" else 1), 10 * (12 if tier == "thorough" else 1)),
+                       "nontrivial_floor": 20, "label_floors": {}}]),
+        "rule": "case = frequency vector (256 entries >=1, total < 5e6) [+ strings to encode]; non-trivial = non-uniform profile, "
+                "codewords <=32 bits; plus dictionary cases (kind, S) of the coded kinds; distinct = hash of the case bytes",
+        "assumptions": ["codewords longer than 32 bits are outside the documented domain (discarded and counted)"],
+    },
+    "C19": {
+        **_cmeta('Generated bit vectors (lengths around multiples of 32/64/15 and of the sampling, all-0/all-1/single/alternating/runs/sparse/random) through BitSequenceRG, RRR, SDArray, DArray with all builder parameters, and integer sequences through WaveletTree (Huffman shape) and WaveletTreeNoptrs: access/rank/select for every position and count compared with the plain definition, again after save/load.', 'property-based testing (rapidcheck), plain-definition reference model'),
+        "stages": comp_stages([("BitSequence", 0, 2500, 300), ("BitSequence", 1, 2500, 300), ("BitSequence", 2, 1500, 300), ("BitSequence", 3, 300, 300),
+                               ("BitSequence", 4, 2500, 300), ("BitSequence", 5, 2500, 300), ("BitSequence", 8, 2500, 300), ("BitSequence", 9, 2500, 300), ("WaveletTree", 0, 1200, 300), ("WaveletTree", 1, 1200, 300),
+                               ("WaveletTree", 2, 1200, 300), ("WaveletTree", 3, 1200, 300)],
+                              floors={"bits:all0": 50, "bits:all1": 50, "bits:single1": 50, "bits:runs": 100}),
+        "rule": "case = (class, builder parameter, bit vector) | (tree class, bitmap builder, integer sequence); non-trivial = length "
+                "> one superblock with 0 < ones < length | >=3 distinct symbols with skewed counts; distinct = hash of the case bytes",
+        "assumptions": ["arguments inside the specified ranges (0<=i<len, 1<=j<=count)"],
+    },
+    "C20": {
+        **_cmeta('Generated integer sequences over 1..255 with 0 terminators (random, single string, abab, aaaa, deeply nested repeats, near-identical strings, no repeated pair; with and without the final terminator) compressed by RePair; the compacted sequence is walked as the dictionary constructors do and expanded through the grammar, compared symbol for symbol; rules checked for the terminator, symbol range against getBits(), expandRule and save/loadNoSeq.', 'property-based testing (rapidcheck), decompression round trip + grammar invariants'),
+        "stages": comp_stages([("RePair", 0, 2500, 500), ("RePair", 1, 2500, 500), ("RePair", 2, 2500, 500), ("RePair", 3, 2500, 500), ("RePair", 4, 2500, 500), ("RePair", 5, 2500, 500)],
+                              floors={"repair_nested_rules": 200, "repair_no_rules": 20, "repair_single_string": 50}),
+        "rule": "case = integer sequence of 1..400 strings with terminators + maxchar; non-trivial = >=1 rule whose expansion contains "
+                "another rule, or zero rules on >=2 strings; distinct = hash of the case bytes",
+        "assumptions": ["the grammar is read through -fno-access-control in the harness translation unit"],
     },
     "C13": {
         **_meta('Every iterator the API returns is drained under a canary/strlen/ASan protocol check and compared with extract(k) and the reference order; scans are steered to start inside buckets.', 'property-based testing (rapidcheck), iterator protocol oracle + reference model'),
